@@ -124,6 +124,18 @@ class C30(core.Check):
             c(screen=0, stmt={'k': 'paint', 'x': 5, 'y': 5, 'c': 2}),
             c(screen=0, stmt={'k': 'draw', 's': 'U10'}),
             c(screen=0, stmt={'k': 'put', 'x': 5, 'y': 5, 'w': 8, 'h': 6, 'op': 0, 'seed': 1}),
+            # seeded C30d: a VIEW rejected for its fill / border attribute (> 255) while a viewport is active must not
+            # draw anything and must leave that viewport in force
+            c(view=[50, 40, 100, 90, True], probe=1,
+              stmt={'k': 'view', 'x0': 100, 'y0': 100, 'x1': 150, 'y1': 150, 'screen': True, 'fill': 2, 'border': 300}),
+            c(view=[50, 40, 100, 90, False], probe=3,
+              stmt={'k': 'view', 'x0': 10, 'y0': 10, 'x1': 200, 'y1': 150, 'screen': False, 'fill': 256, 'border': 1}),
+            c(view=[50, 40, 100, 90, True], probe=2,
+              stmt={'k': 'view', 'x0': 100, 'y0': 100, 'x1': 150, 'y1': 150, 'screen': True, 'fill': None, 'border': -1}),
+            c(view=[50, 40, 100, 90, True], probe=2,
+              stmt={'k': 'view', 'x0': 100, 'y0': 100, 'x1': 400, 'y1': 150, 'screen': True, 'fill': 1, 'border': 2}),
+            c(view=[50, 40, 100, 90, True], probe=2,
+              stmt={'k': 'view', 'x0': 100, 'y0': 100, 'x1': 150, 'y1': 150, 'screen': False, 'fill': 1, 'border': 2}),
             # seeded C30: page kept over a mode change (SCREEN 7,,1,1 : SCREEN 8) - drawing must go to page 1
             c(video='vga', screen=8, hist=[[7, None, 1, 1], [8, None, None, None]],
               stmt={'k': 'line', 'x0': 20, 'y0': 20, 'x1': 40, 'y1': 30, 'c': 5, 'shape': 'BF'}),
@@ -158,6 +170,11 @@ class C30(core.Check):
             if r < 0.9:
                 return rng.randrange(0, nattr)
             return rng.choice([nattr, 15, 255, 17])
+        def vcol():
+            # VIEW's fill / border: also values its range check (0..255) must reject before anything is touched
+            if rng.random() < 0.2:
+                return rng.choice([256, 257, 300, 1000, 32767, -1, -2, -32768])
+            return col()
         k = rng.choice(['pset', 'pset', 'line', 'line', 'line', 'line', 'line', 'view', 'circle', 'paint', 'draw',
                         'put'])
         if k == 'pset':
@@ -176,9 +193,14 @@ class C30(core.Check):
         if k == 'view':
             if rng.random() < 0.1:
                 return {'k': 'view0'}
-            return {'k': 'view', 'x0': rng.choice([rng.randrange(w), cx()]), 'y0': rng.choice([rng.randrange(h), cy()]),
-                    'x1': rng.choice([rng.randrange(w), cx()]), 'y1': rng.choice([rng.randrange(h), cy()]),
-                    'screen': rng.random() < 0.5, 'fill': col(), 'border': col()}
+            d = {'k': 'view', 'x0': rng.choice([rng.randrange(w), cx()]), 'y0': rng.choice([rng.randrange(h), cy()]),
+                 'x1': rng.choice([rng.randrange(w), cx()]), 'y1': rng.choice([rng.randrange(h), cy()]),
+                 'screen': rng.random() < 0.5, 'fill': vcol(), 'border': vcol()}
+            if any(d[c] is not None and not 0 <= d[c] <= 255 for c in ('fill', 'border')) and rng.random() < 0.8:
+                # an attribute the range check rejects: make the rest of the statement valid so that this check decides
+                d['x0'], d['x1'] = rng.sample(range(w), 2)
+                d['y0'], d['y1'] = rng.sample(range(h), 2)
+            return d
         if k == 'circle':
             d = {'k': 'circle', 'x': cx(), 'y': cy(), 'r': rng.choice([0, 0.4, 1, 2, 5, 10, 25, 40, 60, 100, 150]),
                  'c': col()}
@@ -302,6 +324,12 @@ class C30(core.Check):
                 case['hist'] = hh
                 case['bg'] = 0
             case['stmt'] = self.gen_stmt(rng, w, h, vrect, nattr, text)
+            if not text and not case.get('hist') and rng.random() < 0.1:
+                case['pcopy'] = True        # PCOPY <other page>, <active page> right before the statement
+            if not text and (case['stmt']['k'] in ('view', 'view0') or rng.random() < 0.15):
+                # a second step of the history: after the statement, flood the whole coordinate range with a filled
+                # box and see (oracle) that exactly the viewport then in force is painted
+                case['probe'] = rng.randrange(1, max(2, nattr))
             if case['stmt']['k'] == 'circle' and case['window']:
                 # the radius is in WINDOW units: keep the physical radius what the generator chose (a unit-wide
                 # WINDOW would otherwise turn r=100 into 64000 pixels, i.e. 360000 replayed requests)
@@ -457,6 +485,11 @@ class C30(core.Check):
             if not hist:
                 # (with a history no further page statement is issued: it would re-select the page)
                 ex('SCREEN ,,%d,%d' % (ap, vp))
+                if case.get('pcopy') and len(sel) > 1:
+                    # PCOPY <another (equally filled) page>, <the ACTIVE page>, and no page statement after it: the
+                    # drawing that follows must land in the page buffer that the snapshots read (C31d)
+                    ex('PCOPY %d,%d' % (sel[1], ap))
+                    s._impl.interpreter.error_num = 0
             if case['view']:
                 v = case['view']
                 # VIEW with fill = background so that nothing visible changes
@@ -524,6 +557,15 @@ class C30(core.Check):
         after = rec.after if rec.after is not None else G.snapshot(s)
         if status is None:
             status = [1, rec.err] if rec.err else [0]
+        info['probe'] = None
+        if case.get('probe') is not None and not text and not case.get('window') and status[0] != 2:
+            mid = G.snapshot(s)
+            s._impl.interpreter.error_num = 0
+            ex('LINE (-32768,-32768)-(32767,32767),%d,BF' % case['probe'])
+            post = G.snapshot(s)
+            pw = [p._pixels.width for p in s._impl.display.pages]
+            info['probe'] = {'err': s._impl.interpreter.error_num, 'mid': mid[info['ap']],
+                             'diffs': [G.diff_cells(b, a, wd) for b, a, wd in zip(mid, post, pw)]}
         g = s._impl.display.graphics
         widths = [p._pixels.width for p in s._impl.display.pages]
         diffs = [G.diff_cells(b, a, wd) for b, a, wd in zip(before, after, widths)]
@@ -552,9 +594,8 @@ class C30(core.Check):
             return out
         for p in info['sel']:
             out += G.diff_summary(info['diffs'][p])
-        if info['status'][0] == 0:
-            va = info['view_after']
-            out += [int(va[0]), va[1], va[2], va[3], va[4]]
+        va = info['view_after'] if info['view_after'] is not None else info['view']
+        out += [int(va[0]), va[1], va[2], va[3], va[4]]
         return out
 
     # ------------------------------------------------------------------ model
@@ -600,14 +641,22 @@ class C30(core.Check):
         if k in ('view', 'view0'):
             if text:
                 return '(SView 0 0 1 1 false None None)'
-            ints = k == 'view' and all(isinstance(st[c], int) and abs(st[c]) < 32768 for c in ('x0', 'y0', 'x1', 'y1'))
-            if (ok or (err == 5 and ints and not calls)) and k == 'view':
-                fill = border = 'None'
+            ints = k == 'view' and all(isinstance(st[c], int) and abs(st[c]) < 32768 for c in ('x0', 'y0', 'x1', 'y1')) \
+                and all(st.get(c) is None or abs(st[c]) < 32768 for c in ('fill', 'border'))
+            if (ok or (err == 5 and ints)) and k == 'view':
+                # (attribute as written, attribute drawn); a rejected VIEW (error 5 from its corner or attribute
+                # checks) is modelled too: the model says nothing is drawn and the viewport stays
+                drawn = {}
                 for name, a, kw in calls:
                     if name == '_draw_box_filled':
-                        fill = '(Some %s)' % z(a[4])
+                        drawn['fill'] = a[4]
                     if name == '_draw_box':
-                        border = '(Some %s)' % z(a[4])
+                        drawn['border'] = a[4]
+                fill = border = 'None'
+                if st.get('fill') is not None:
+                    fill = '(Some (%s, %s))' % (z(st['fill']), z(drawn.get('fill', st['fill'])))
+                if st.get('border') is not None:
+                    border = '(Some (%s, %s))' % (z(st['border']), z(drawn.get('border', st['border'])))
                 return '(SView %s %s %s %s %s %s %s)' % (z(st['x0']), z(st['y0']), z(st['x1']), z(st['y1']),
                                                         'true' if st.get('screen') else 'false', fill, border)
             return None     # plain VIEW / failed VIEW: handled by the caller (viewport reset is compared)
@@ -656,6 +705,13 @@ class C30(core.Check):
                 return 'page %d (active page is %d%s) changed at %r by %s' % (
                     p, ap, (' after ' + ': '.join(hist_text(h) for h in case['hist'])) if case.get('hist') else '',
                     d[:3], self.stmt_text(case['stmt']))
+        why = self.probe_oracle(case, info)
+        if why:
+            return why
+        if case['stmt']['k'] in ('view', 'view0') and info['status'][0] == 1 and any(diffs):
+            p = [i for i, d in enumerate(diffs) if d][0]
+            return '%s was rejected with error %d but changed pixel %r of page %d' % (
+                self.stmt_text(case['stmt']), info['status'][1], diffs[p][0], p)
         x0, y0, x1, y1 = info['rect']
         if case['stmt']['k'] in ('view', 'view0'):
             x0, y0, x1, y1 = 0, 0, info['w'] - 1, info['h'] - 1
@@ -679,6 +735,41 @@ class C30(core.Check):
             if not (x0 <= x <= x1 and y0 <= y <= y1):
                 return 'pixel (%d,%d) outside the viewport (%d,%d)-(%d,%d) changed to %d by %s' % (
                     x, y, x0, y0, x1, y1, v, self.stmt_text(case['stmt']))
+        return None
+
+    def probe_oracle(self, case, info):
+        """After the statement a filled box over the whole coordinate range must paint exactly the viewport in force:
+        the new one after an accepted VIEW, the whole screen after plain VIEW, otherwise (also after a rejected
+        VIEW) the one set before the statement."""
+        pr = info.get('probe')
+        if not pr or pr['err']:
+            return None
+        st = case['stmt']
+        ok = info['status'] == [0]
+        x0, y0, x1, y1 = info['rect']
+        if st['k'] == 'view0' and ok:
+            x0, y0, x1, y1 = 0, 0, info['w'] - 1, info['h'] - 1
+        elif st['k'] == 'view' and ok:
+            x0, x1 = sorted((st['x0'], st['x1']))
+            y0, y1 = sorted((st['y0'], st['y1']))
+        what = '%s then LINE (-32768,-32768)-(32767,32767),%d,BF' % (self.stmt_text(st), case['probe'])
+        ap = info['ap']
+        for p, d in enumerate(pr['diffs']):
+            if p != ap and d:
+                return 'page %d (active page is %d) changed by %s' % (p, ap, what)
+        w = info['w']
+        got = set((y, x) for (y, x, v) in pr['diffs'][ap])
+        for (y, x) in got:
+            if not (x0 <= x <= x1 and y0 <= y <= y1):
+                return 'pixel (%d,%d) outside the viewport in force (%d,%d)-(%d,%d) changed by %s (status of the first: %r)' % (
+                    x, y, x0, y0, x1, y1, what, info['status'])
+        mid = pr['mid']
+        for y in range(y0, y1 + 1):
+            row = mid[y * w + x0: y * w + x1 + 1]
+            for i, v in enumerate(row):
+                if v != case['probe'] and (y, x0 + i) not in got:
+                    return 'pixel (%d,%d) inside the viewport in force (%d,%d)-(%d,%d) not painted by %s' % (
+                        x0 + i, y, x0, y0, x1, y1, what)
         return None
 
     def nontrivial(self, case, out):
